@@ -251,3 +251,51 @@ ADDED = {
 }
 for _p, _t in ADDED.items():
     CHECKS[_p]["text"] = CHECKS[_p]["text"] + " " + _t
+
+# Round 2 (DESIGN.md sections 8 and 11): rules every property runs + property-specific clauses.
+_HI = ("History independence: in the modules the property is anchored in, nothing but the three frozen owners (newest-version "
+       "pointer of a memory family, the lazily built stateless pattern normaliser, registry initialisation) holds state between "
+       "calls — a memoising decorator, a container or global written from a function, an instance attribute assigned outside the "
+       "constructor or a mutated mutable default is reported with the construct that introduces it.")
+ADDED2 = {
+    "C01": "The constructor's loops have no early exit before the deciding call (CFG); the order-fixing iterable contains no "
+           "set / dict view of the input; str.isdigit() never guards int() in the pretty sort key.",
+    "C02": "Every return of ReferenceProperty.clean is dominated by the id validation and the type test; the constructor loops "
+           "run to exhaustion; no validation regex has a nested unbounded repeat over overlapping alphabets.",
+    "C03": "A constructor that names a property as a Python parameter hands it on only when given; presence of a dependent "
+           "property is tested by membership, not by truthiness.",
+    "C04": "The strict-parse escape hatch is also decided for an absent and an unknown extension type; the flag is seeded from the "
+           "custom properties that are kept; a 2.1-only mechanism is consulted under a version test; the registry predicate "
+           "asked matches the category of the asking site.",
+    "C05": "No replace(tzinfo=...) on an aware value; STIXdatetime carries precision, constraint and fold through construction, "
+           "copy and pickle; new_version never writes through the object it was given.",
+    "C06": "An id is generated exactly when none was given; tuples are hashed like lists.",
+    "C07": "Marking operations never answer with the object itself and never write through it; groupby is fed sorted data; no "
+           "single-use iterator is consumed twice.",
+    "C08": "Stated over all functions of the selector walk (discovered from the call graph): every list element is walked "
+           "whatever it is, tuples like lists, every mapping, and only the type of a value guards a descent; every public "
+           "granular entry point validates selectors through the same routine.",
+    "C09": "Implication between comparison atoms only between constants of comparable types; a transformer's `changed` result "
+           "accumulates over its children; special-value canonicalisation only under value operators (never MATCHES / LIKE).",
+    "C10": "Float and hex literals are printed in the only forms the grammar has; an index step [0] is not lost to a truthiness "
+           "test; keyword steps are quoted, quotes/backslashes escaped on printing and unescaped exactly once on parsing.",
+    "C11": "The stores hand a named version on exactly as received; MemorySource.get answers the newest of the versions that "
+           "pass the filters (as the filesystem source does); the filesystem optimiser prunes only on filters it understands.",
+    "C12": "Directory / family scans have no early exit; every candidate reaches apply_common_filters with the full private "
+           "filter set; an `in` filter with a string value is not pruned on; list-valued timestamp filters coerce every member.",
+    "C13": "__setattr__ refuses every name that is a property of the object, underscore-named ones included.",
+    "C14": "Detection by content happens only at the frozen detector sites and only when no version was named; a forwarded version "
+           "is the parameter itself on every path; version-specific constants are consulted under a version test. One construct "
+           "(bundle members ignore a named version) is a recorded known finding.",
+    "C15": "STIXdatetime is a value object (precision, constraint, fold kept by copy/pickle); naive datetimes are read as UTC.",
+    "C16": "Which C encoder is selected follows ensure_ascii=False at every canonicalisation call.",
+    "C17": "Every recursive walk over input-shaped values outside the property wrapper converts RecursionError; a failed "
+           "construction or registration writes to no registry table (composite decorators undo their first registration).",
+    "C18": "Navigation through a composite ranges over the union of the members; a self-loop relationship is answered once; the "
+           "de-duplication key is (id, stored version) untransformed and nothing is collapsed by id alone.",
+    "C19": "No type-name regex backtracks super-linearly; a type name is registrable in one category only; a decorator that makes "
+           "two registrations undoes the first when the second is refused.",
+    "C20": "The label side of each scale is compared exactly.",
+}
+for _p in CHECKS:
+    CHECKS[_p]["text"] = CHECKS[_p]["text"] + " " + ADDED2.get(_p, "") + " " + _HI
